@@ -15,7 +15,7 @@ GNext == /\ Len(hist) < Depth
          /\ \/ \E k \in Keys, kind \in GenKinds, d \in Deadlines :
                   Insert(k, kind, d) /\ Call([op |-> "insert", s |-> k[1], id |-> k[2], kind |-> kind, d |-> d, ty |-> "", now |-> 0])
             \/ \E k \in Keys, ty \in AckTypes :
-                  /\ (k \in Dom(entries) \/ (ty = "PUBACK" /\ k[2] = 1))
+                  /\ ((\E x \in Dom(entries) : x[1] = k[1] /\ x[2] = k[2]) \/ (ty = "PUBACK" /\ k[2] = 1))
                   /\ Ack(k, ty) /\ Call([op |-> "ack", s |-> k[1], id |-> k[2], kind |-> "", d |-> 0, ty |-> ty, now |-> 0])
             \/ \E now \in Sweeps :
                   Sweep(now, Must(entries, now)) /\ Call([op |-> "sweep", s |-> "", id |-> 0, kind |-> "", d |-> 0, ty |-> "", now |-> now])
